@@ -42,7 +42,9 @@ def sources(state):
         c = c + 'def broken(:\n'            # a module that temporarily does not parse (the user is typing in another buffer)
     # g puts one more unchanged module between the requesting file and b / c: a -> g -> b -> d, a -> g -> c -> d
     g = 'from b import *\nfrom c import C as GC\ngname = 1\n'
-    out = {'d': d, 'b': b, 'c': c, 'x': x, 'y': y, 'g': g, 'k': k,
+    # an import made under a global declaration: the imported module is a dependency like any other
+    gl = 'def setup():\n    global ghelper\n    from d import D as ghelper\n'
+    out = {'d': d, 'b': b, 'c': c, 'x': x, 'y': y, 'g': g, 'k': k, 'gl': gl,
            # a nested package whose modules use relative imports of level 1 and of level 2 from one directory
            'rel/sub/__init__': '', 'rel/sub/two': 'tvalue = 1\n', 'rel/sub/one': 'from . import two\n',
            'rel/sub/impl': 'from ..helpers import hvalue as hv\nfrom ..helpers import *\n',
@@ -85,7 +87,9 @@ A_SRC = ('from b import *\n'
          'one.two.tvalue\n'
          'from rel.sub import impl\n'
          'impl.hv.real\n'
-         'impl.hv\n')
+         'impl.hv\n'
+         'from gl import ghelper\n'
+         'ghelper.x\n')
 
 REQUESTS = {
     'assist-instance-attr': ('assist', (5, 4)),
@@ -108,12 +112,13 @@ REQUESTS = {
     'assist-nested-level1': ('assist', (25, 8)),
     'assist-nested-level2': ('assist', (27, 8)),
     'assist-nested-level2-star': ('assist', (28, 6)),
+    'assist-global-declared-import': ('assist', (30, 8)),
 }
-EDITS = ['w:d_extra', 'w:d_new', 'w:b_extra', 'w:c_extra', 'w:c_broken', 'w:h_extra', 'w:k_full', 'w:x_extra', 'w:y_extra', 'touch:d', 'touch:b', 'touch:c', 'create:e', 'create:f', 'create:pkg']
+EDITS = ['w:d_extra', 'w:d_new', 'w:b_extra', 'w:c_extra', 'w:c_broken', 'w:h_extra', 'w:k_full', 'w:x_extra', 'w:y_extra', 'touch:d', 'touch:b', 'touch:c', 'create:e', 'create:f', 'create:pkg', 'delete:k']
 ALPHABET = EDITS + sorted(REQUESTS)
-QUICK_EDITS = ['w:d_extra', 'w:d_new', 'w:b_extra', 'w:y_extra', 'w:c_broken', 'w:h_extra', 'w:k_full', 'touch:d', 'touch:b', 'create:e', 'create:f', 'create:pkg']
+QUICK_EDITS = ['w:d_extra', 'w:d_new', 'w:b_extra', 'w:y_extra', 'w:c_broken', 'w:h_extra', 'w:k_full', 'touch:d', 'touch:b', 'create:e', 'create:f', 'create:pkg', 'delete:k']
 QUICK_REQUESTS = ['assist-instance-attr', 'assist-star-class-attr', 'assist-names', 'assist-created-module', 'location-inherited-attr',
-                  'assist-created-package', 'assist-late-star-names', 'assist-through-cycle', 'assist-package-from-import', 'assist-relative-reexport', 'assist-deep-star-names', 'assist-deep-inherited-attr', 'assist-empty-module-star-names', 'assist-nested-level1', 'assist-nested-level2']
+                  'assist-created-package', 'assist-late-star-names', 'assist-through-cycle', 'assist-package-from-import', 'assist-relative-reexport', 'assist-deep-star-names', 'assist-deep-inherited-attr', 'assist-empty-module-star-names', 'assist-nested-level1', 'assist-nested-level2', 'assist-global-declared-import']
 
 
 class World(object):
@@ -163,6 +168,15 @@ class World(object):
                 for name, src in sources(self.state).items():
                     if name.split('/')[0] == key:
                         self.write(name, src)
+                if self.loaded_once:
+                    self.edit_after_load = True
+            return None
+        if op.startswith('delete:'):
+            # a module file removed (renamed, moved) between two requests; w:k_full writes it again
+            path = os.path.join(self.root, op[7:] + '.py')
+            if os.path.exists(path):
+                os.remove(path)
+                self.written.pop(op[7:], None)
                 if self.loaded_once:
                     self.edit_after_load = True
             return None
